@@ -11,7 +11,8 @@ META = {
     "technique": "Coq proof of the lifecycle clauses on the receiver model + refutation witness (F2) + per-step lifecycle monitor and model/implementation correspondence",
 }
 ASSUMPTIONS = ["the failure detector's suspicion levels are inputs (scripted in the harness)",
-               "wall-clock 'now' is read back from the stamped expiry (oracle), so expiry = now + 60 s is checked as 'expiry set' on the implementation and exactly on the model"]
+               "wall-clock 'now' is read back from the stamped expiry (oracle), so expiry = now + 60 s is checked as 'expiry set' on the implementation and exactly on the model",
+               "node ids are valid UTF-8 (cluster configuration); since fix U1 the real ApplyDigest/applyDeltaEntry ignore any other id, the world model applies the same filter where forged packets enter (WInject, Gossip/World.v sanitize_body)"]
 TRUSTED = ["python lifecycle monitor (props/C11.py)"]
 
 
